@@ -151,7 +151,9 @@ class Sub:
         self.log.add("SUB.call", name=self.name, args=a, kwargs=kw)
         if self.action is not None:
             act, self.action = self.action, None
-            act()
+            r = act()
+            if hasattr(r, "__await__"):
+                await r   # e.g. a command submitted from inside the callback
         if self.raises:
             raise RuntimeError(f"subscriber {self.name} fails")
 
